@@ -62,7 +62,10 @@ def check(ctx):
                 if (t or "").endswith(":SolverOptions") or "option" in last.lower() or "option" in norm(n.value).split(".")[-1].lower():
                     readers.setdefault(f.fq, set()).add(n.attr)
     for fq, fl in sorted(readers.items()):
-        ok = fq in ALLOWED_READERS
+        # the runner and its recorder as a whole are the allowed readers: any method of Runner / DataHandler, and functions nested
+        # in (or extracted into the same class as) an allowed reader
+        ok = fq in ALLOWED_READERS or any(fq.startswith(a_ + ".") for a_ in ALLOWED_READERS) \
+            or fq.startswith(("tdgl.solver.runner:Runner.", "tdgl.solver.runner:DataHandler."))
         f = repo.by_fq(fq)
         ctx.ob("R11.1", f"{fq} reads {sorted(fl)}", ok, detail=ALLOWED_READERS.get(fq), where=fq, construct=f"reads options.{sorted(fl)}",
                loc=loc(f, f.node), message=f"{fq} reads the recording option(s) {sorted(fl)}",
@@ -229,6 +232,9 @@ def observers(ctx):
                 walk(x, where)
         elif isinstance(v, dict):
             for x in v.values():
+                walk(x, where)
+        elif hasattr(v, "rtype"):                  # a NamedTuple of the model
+            for x in v.values.values():
                 walk(x, where)
     for t in traces:
         for e in t.events:
